@@ -147,13 +147,16 @@ def addPt (c : Curve) : Pt → Pt → Pt
       let x3 := sub p (mul p lam lam) (add p x1 x2)
       some (x3, sub p (mul p lam (sub p x1 x3)) y1)
 
-def smul (c : Curve) (k : Nat) (P : Pt) : Pt :=
-  if h : k = 0 then none else
-    let half := smul c (k / 2) P
-    let dbl := addPt c half half
-    if k % 2 = 1 then addPt c dbl P else dbl
-termination_by k
-decreasing_by omega
+def smulAux (c : Curve) : Nat → Nat → Pt → Pt
+  | 0, _, _ => none
+  | fuel + 1, k, P =>
+    if k = 0 then none else
+      let half := smulAux c fuel (k / 2) P
+      let dbl := addPt c half half
+      if k % 2 = 1 then addPt c dbl P else dbl
+
+/-- Double-and-add scalar multiplication (structural in the bit length). -/
+def smul (c : Curve) (k : Nat) (P : Pt) : Pt := smulAux c (k.log2 + 1) k P
 
 /-- BN `pointG2.MarshalBinary`: `x.im ‖ x.re ‖ y.im ‖ y.re`, 32 bytes each, big-endian; O = 128 zero bytes. -/
 def enc : Pt → Bytes
@@ -211,21 +214,28 @@ end BN254
 /-! ### BLS12-381, G1 -/
 namespace BLS12381
 open Weierstrass
-/-- Square root in `F_p`, `p ≡ 3 (mod 4)`: `a^((p+1)/4)` if that squares to `a`. -/
+/-- Square-root candidate in `F_p`, `p ≡ 3 (mod 4)`: `a^((p+1)/4)`. -/
+def sqrtCand (a : Nat) : Nat := powMod a ((p + 1) / 4) p
+
+/-- Square root in `F_p`: the candidate, if it squares to `a`. -/
 def sqrtFp (a : Nat) : Option Nat :=
-  let y := powMod a ((p + 1) / 4) p
-  if y * y % p = a % p then some y else none
+  if sqrtCand a * sqrtCand a % p = a % p then some (sqrtCand a) else none
 
 def half : Nat := (p - 1) / 2
+
+/-- Right-hand side of the curve equation `y² = x³ + 4`. -/
+def rhs (x : Nat) : Nat := (x * x % p * x + 4) % p
+
+/-- The root selected by the "larger root" flag. -/
+def pickRoot (big : Bool) (y0 : Nat) : Nat := if decide (half < y0) = big then y0 else negMod y0 p
 
 /-- Decompress `x` with the "larger root" flag, then test the order. -/
 def decXY (big : Bool) (x : Nat) : Option Pt :=
   if p ≤ x then none else
-  match sqrtFp ((x * x % p * x + 4) % p) with
+  match sqrtFp (rhs x) with
   | none => none
   | some y0 =>
-    let y := if decide (half < y0) = big then y0 else negMod y0 p
-    if smul curve r (some (x, y)) = none then some (some (x, y)) else none
+    if smul curve r (some (x, pickRoot big y0)) = none then some (some (x, pickRoot big y0)) else none
 
 /-- ZCash compressed form, exactly 48 bytes (`FromCompressed` of kilic; what all three back-ends
     produce). Bit 7 of the first byte: compressed (must be set); bit 6: infinity (then the string must be
